@@ -3,7 +3,7 @@ literals (ops of type `op`, observations of type `oval`).  Shared by C02 and C04
 workspace-level properties).
 
 An op is a JSON-able list: ["NewSession", root] | ["OpenSp", s, typed_sp] | ["OpenId", s, id] |
-["Init", h, force] | ["Sp", h] | ["Cached", h] | ["IdPath", h] | ["Doc", h] | ["DocReset", h, typed_doc] |
+["Init", h, force] | ["Sp", h] | ["Cached", h] | ["Repr", h] (= Cached, read through repr(job)) | ["IdPath", h] | ["Doc", h] | ["DocReset", h, typed_doc] |
 ["WriteFile", h, [rel...], hexbytes] | ["PlantDir", [path...]] | ["PlantFile", [path...], hexbytes] |
 ["Ids", s] | ["Len", s] | ["Contains", s, h] | ["Copy", h] | ["DeepCopy", h] | ["Pickle", h] |
 ["Edit", h, [steps...], act] | ["Assign", h, typed_sp] | ["UpdateSp", h, typed_u, overwrite] |
@@ -139,6 +139,8 @@ def coq_op(L, op):
         return f"(OInit {n(op[1])} {coq_bool(op[2])})"
     if k in ("Sp", "Cached", "IdPath", "Doc", "Copy", "DeepCopy", "Pickle"):
         return f"(O{k} {n(op[1])})"
+    if k == "Repr":      # repr(job) shows cached_statepoint: the same model operation, read through another door
+        return f"(OCached {n(op[1])})"
     if k == "DocReset":
         return f"(ODocReset {n(op[1])} {L.json(untyped(op[2]))})"
     if k == "WriteFile":
@@ -452,6 +454,11 @@ class World:
                 return ["json", typed(to_plain(H[op[1]].statepoint()))]
             if k == "Cached":
                 return ["json", typed(to_plain(dict(H[op[1]].cached_statepoint)))]
+            if k == "Repr":
+                text = repr(H[op[1]])
+                import ast
+                at = text.index(", statepoint=") + len(", statepoint=")
+                return ["json", typed(to_plain(ast.literal_eval(text[at:-1])))]
             if k == "IdPath":
                 j = H[op[1]]
                 return ["idpath", j.id, os.path.relpath(j.path, self.root).split(os.sep)]
